@@ -268,3 +268,55 @@ PANICSITES = {
         "clause": "BigUint::modpow (panics on a zero modulus) is called only after a guard that returns an error for a zero modulus",
     },
 }
+
+
+# ---------------------------------------------------------------- off-circuit vs in-circuit type tables (C18)
+# For the three comparison operations the in-circuit side dispatches on the operand types and returns
+# Error::Unsupported for every other combination.  C18: an ill-typed program must be rejected by BOTH sides, a
+# well-typed one accepted by both.  Obligation: the off-circuit arm of the parser accepts exactly the type pairs the
+# in-circuit function accepts.  An off-circuit arm without any type dispatch accepts every pair of values.
+IR_TYPES = ["Bool", "Bytes", "Native", "BigUint", "JubjubPoint", "JubjubScalar"]
+
+
+def _incircuit_pairs(read, fname, fn):
+    text = read("zkir/src/instructions/operations/%s.rs" % fname)
+    body = _rs.fn_body_text(text, _rs.find_item(text, ["fn " + fn]))
+    pairs = set(_re.findall(r"\((\w+)\(\w+\), (\w+)\(\w+\)\)(?: if .*?)? =>", body))
+    if not pairs or "_ =>" not in body:
+        raise Unsupported("lost anchor: type dispatch of %s" % fn)
+    return pairs
+
+
+def _offcircuit_pairs(read, op):
+    arms = _arms(read("zkir/src/parser/offcircuit.rs"), ["impl Parser", "fn process_instruction"])
+    arm = arms.get(op)
+    if arm is None:
+        raise Unsupported("lost anchor: off-circuit arm of %s" % op)
+    pairs = set(_re.findall(r"\((?:IrValue::)?(\w+)\(\w+\), (?:IrValue::)?(\w+)\(\w+\)\)", arm))
+    if pairs:
+        return pairs
+    called = _re.findall(r"\b(\w+_offcircuit)\(", arm)
+    if called:
+        raise Unsupported("off-circuit arm of %s delegates to %s: table not extracted" % (op, called))
+    # no dispatch at all (`inps[0] == inps[1]`): every pair of values is accepted
+    return {(a, b) for a in IR_TYPES for b in IR_TYPES}
+
+
+_prev_constants_check = constants_check
+
+
+def constants_check(read):
+    res = list(_prev_constants_check(read))
+    for op, fname, fn in (("IsEqual", "is_equal", "is_equal_incircuit"), ("AssertEqual", "assert_equal", "assert_equal_incircuit"),
+                          ("AssertNotEqual", "assert_not_equal", "assert_not_equal_incircuit")):
+        inc = _incircuit_pairs(read, fname, fn)
+        off = _offcircuit_pairs(read, op)
+        only_off = sorted(off - inc)
+        only_in = sorted(inc - off)
+        same_type_only_off = [p for p in only_off if p[0] == p[1]]
+        msg = "accepted off-circuit only: %d pairs (same-type: %s; the rest mixes two types); accepted in-circuit only: %s" % (
+            len(only_off), same_type_only_off, only_in)
+        res.append(("type_table_%s" % op, not only_off and not only_in,
+                    "the off-circuit evaluation of %s accepts exactly the operand type pairs the in-circuit %s accepts (%s)" % (op, fn, msg if (only_off or only_in) else "tables agree"),
+                    ["C18"], "equality_types"))
+    return res
